@@ -232,7 +232,7 @@ class Clause:
 
 class LoopSpec:
     def __init__(self, k):
-        self.k = k; self.invariants = []; self.on_exit = []; self.decreases = None; self.assigns = None; self.ghost_updates = []; self.uses = []
+        self.k = k; self.invariants = []; self.on_exit = []; self.summaries = []; self.decreases = None; self.assigns = None; self.ghost_updates = []; self.uses = []
 
 
 class FuncSpec:
@@ -284,6 +284,7 @@ class SpecDB:
         self.defines = {}      # name -> (params, X)
         self.funcs = {}        # key -> FuncSpec
         self.lemmas = {}
+        self.summary_ufs = {}    # loop-summary function name -> (function key, loop ordinal): one definition only
         self.specfns = {}
         self.relations = {}
         self.files = []
@@ -355,7 +356,7 @@ class SpecDB:
                         if not p: continue
                         t, n = p.split()
                         ps.append((t, n))
-                    self.specfns[m.group(1)] = SpecFn(m.group(1), ps, m.group(3), parse_expr(m.group(5)) if m.group(5) else None)
+                    self.specfns[m.group(1)] = SpecFn(m.group(1), ps, m.group(3), self.expand(parse_expr(m.group(5))) if m.group(5) else None)
                 elif head == 'function':
                     ctx = FuncSpec(rest.split()[0]); ctx.file = path; loop = None
                     ctx.source = getattr(self, 'cur_source', None)
@@ -428,6 +429,16 @@ class SpecDB:
                     m2 = re.match(r'^(\w+)\s+invariant\s+(.*)$', rest)
                     if not m2 or not isinstance(ctx, FuncSpec): raise SpecError('static: expected `static NAME invariant EXPR` inside a function block')
                     ctx.static_invs.setdefault(m2.group(1), []).append(Clause('static_invariant', self.expand(parse_expr(m2.group(2))), m2.group(2), engines, None, ln))
+                elif head == 'summary':
+                    # summary VAR = UF(arg, ...): at every exit of this (deterministic, closed) loop VAR is this function of the
+                    # arguments' values at loop entry -- the engine checks that everything the loop reads is determined by them
+                    if loop is None: raise SpecError('summary outside loop')
+                    m2 = re.match(r'^(\w+)\s*=\s*(\w+)\((.*)\)\s*$', rest)
+                    if not m2: raise SpecError('summary VAR = UF(args) expected')
+                    ax = self.expand(parse_expr('__args(' + m2.group(3) + ')'))
+                    if m2.group(2) in self.summary_ufs: raise SpecError('summary function %s is already defined by another loop' % m2.group(2))
+                    self.summary_ufs[m2.group(2)] = (ctx.key, loop.k)
+                    loop.summaries.append((m2.group(1), m2.group(2), list(ax.args)))
                 elif head == 'on_exit':
                     if loop is None: raise SpecError('on_exit outside loop')
                     loop.on_exit.append(Clause('on_exit', self.expand(parse_expr(rest)), rest, engines, label, ln))
